@@ -262,6 +262,15 @@ class _Holder:
 
 _HOLDER = _Holder()
 REGEXES = [r"^[a-z]+$", r"\d"]
+DTYPES = {0: "bool", 1: "int32", 2: "int64", 3: "float32", 4: "float64"}
+CASTINGS = {0: "unsafe", 1: "same_kind", 2: "safe", 3: "equiv", 4: "no"}
+
+
+def dtype_code(dt):
+    for k, n in DTYPES.items():
+        if str(dt) == n:
+            return k
+    return 99
 
 # user classes: cid -> (name, mro cids, adapts-to cids)
 CLASS_INFO = {0: ("O", [0], []), 1: ("O1", [1, 0], []), 2: ("P", [2], []), 3: ("Q", [3, 2], []),
@@ -411,6 +420,8 @@ def build_value(t, ctx):
         return w.np_complex[int(t[1])](complex(parse_f(t[2]), parse_f(t[3])))
     if h == "arr":
         return w.arrays[int(t[1])]
+    if h == "nd":
+        return w.np.zeros(tuple(int(x) for x in t[2]), DTYPES[int(t[1])])
     key = show_sexp(t)
     if h == "idx":
         return ctx.remember(key, lambda: Idx(_pr(t[1], lambda a: int(a[0]))))
@@ -518,11 +529,13 @@ def canon(o, ctx):
             return ["ty", w.type_name[o]]
         return ["unk", "type"]
     for table, tag in ((w.funcs, "fn"), (w.methods, "meth"), (w.builtins, "bfn"), (w.modules, "mod"),
-                       (w.arrays, "arr"), (w.dicts, "dict")):
+                       (w.dicts, "dict")):
         for i, x in table.items():
             if o is x or (tag == "meth" and getattr(o, "__self__", None) is x.__self__
                           and getattr(o, "__func__", None) is x.__func__):
                 return [tag, str(i)]
+    if t is np.ndarray:
+        return ["nd", str(dtype_code(o.dtype)), [str(x) for x in o.shape]]
     if t is ctx.classes[9]:
         a = o.adaptee
         ak = ctx.rev.get(id(a))
@@ -622,6 +635,10 @@ def _build_with(t, ctx, cls):
         if t[3] != "N":
             kw["regex"] = REGEXES[int(t[3])]
         return T.String(**kw)
+    if h == "Array":
+        from traits.api import Array
+        return Array(dtype=None if t[1] == "N" else DTYPES[int(t[1])], shape=shape_spec(t[2]),
+                     casting=CASTINGS[int(t[3])])
     if h == "PrefixList":
         return T.PrefixList([dec(x) for x in t[1:]])
     if h == "PrefixMap":
@@ -641,6 +658,31 @@ def _build_with(t, ctx, cls):
     if h == "CompoundH":
         return H.TraitCompound([_handler(x, ctx) for x in t[1:]])
     raise ValueError("unknown trait term " + show_sexp(t))
+
+
+def shape_spec(t):
+    if t == "N":
+        return None
+    out = []
+    for d in t:
+        if d == "N":
+            out.append(None)
+        elif isinstance(d, list):
+            out.append((int(d[0]), None if d[1] == "N" else int(d[1])))
+        else:
+            out.append(int(d))
+    return tuple(out)
+
+
+def array_traits(t, acc):
+    """(dtype, casting) options of the Array traits in term t."""
+    if isinstance(t, list) and t:
+        if t[0] == "Array":
+            acc.add((t[1], int(t[3])))
+        elif t[0] in ("Base", "Tuple", "BaseTuple", "Union", "CompoundH", "Either"):
+            for x in t[1:]:
+                array_traits(x, acc)
+    return acc
 
 
 def _inner(t, ctx):
@@ -821,6 +863,29 @@ def env_for(tts, vals, self_cid=0):
             for s in sorted(strs):
                 m = re.compile(REGEXES[k]).match(s) is not None
                 parts.append("(rx %d %s %d)" % (k, enc(s), 1 if m else 0) if s else "(rx %d %d)" % (k, 1 if m else 0))
+    arrs = set()
+    for tt in tts:
+        array_traits(tt, arrs)
+    if arrs:
+        import numpy as np
+        ctx = Ctx()
+        for dt in sorted(set(d for d, _ in arrs)):
+            for v in vals:
+                if isinstance(v, list) and v and v[0] in ("t", "ts", "l"):
+                    o = build_value(v, ctx)
+                    try:
+                        with warnings.catch_warnings():
+                            warnings.simplefilter("ignore")
+                            a = np.asarray(o) if dt == "N" else np.asarray(o, DTYPES[int(dt)])
+                        parts.append("(asarray %s %s ok %d (%s))" % (show_sexp(v), dt, dtype_code(a.dtype),
+                                                                      " ".join(str(x) for x in a.shape)))
+                    except Exception as e:
+                        parts.append("(asarray %s %s exc %s)" % (show_sexp(v), dt, exc_name(e)))
+        for dt, c in sorted(arrs):
+            if dt != "N":
+                for src in DTYPES:
+                    ok = np.can_cast(np.dtype(DTYPES[src]), np.dtype(DTYPES[int(dt)]), casting=CASTINGS[c])
+                    parts.append("(cancast %d %s %d %d)" % (src, dt, c, 1 if ok else 0))
     return " ".join(parts) if parts else "-"
 
 
@@ -857,7 +922,9 @@ def lattice():
     L += ["(l)", "(l (i 1))", "(l (i 1) (i 2))", "(l (i 1) (s a))", "(l (s a))"]
     L += ["(nb 1)", "(nb 0)", "(ni 8 3)", "(ni 32 -1)", "(ni 64 2)", "(ni 108 255)", "(ni 64 %d)" % (2 ** 53 + 1),
           "(nf 16 6)", "(nf 32 2)", "(nf 32 nan)", "(nf 64 10)", "(nf 64 inf)", "(nf 64 -0)",
-          "(nc 64 4 8)", "(nc 128 6 0)", "(arr 0)"]
+          "(nc 64 4 8)", "(nc 128 6 0)", "(nd 2 (2))"]
+    L += ["(nd 4 (3))", "(nd 1 (3))", "(nd 4 (2 3))", "(nd 0 (0))", "(nd 2 (2 2 2))", "(nd 3 (3))",
+          "(l (f 4) (f 8) (f 12))", "(t (t (i 1) (i 2) (i 3)) (t (i 4) (i 5) (i 6)))"]
     L += ["(idx (ret 3))", "(idx (ret -1))", "(idx (ret %d))" % big]
     L += ["(idx (exc %s))" % e for e in EXC]
     L += ["(flt (ret 6))", "(flt (ret nan))"] + ["(flt (exc %s))" % e for e in EXC]
@@ -881,6 +948,8 @@ def value_class(t):
         return h + (":" + t[1] if t[1] in ("nan", "inf", "-inf", "-0") else "")
     if h in ("ni", "nf", "nc"):
         return h + t[1]
+    if h == "nd":
+        return "nd"
     if h in ("idx", "flt", "cpx"):
         return h + ":" + (t[1][1] if t[1][0] == "exc" else "ret")
     if h == "i":
@@ -970,6 +1039,8 @@ def single_traits():
     out += ["(This 1)", "(This 0)", "(Callable 1)", "(Callable 0)", "(Base (Callable 1))"]
     out += ["(String 0 N N)", "(String 1 3 N)", "(String 0 N 0)", "(String 2 5 1)", "(String 0 2 N)", "(String 3 N N)"]
     out += ["(PrefixList yes no yellow)", "(PrefixMap (yes (i 1)) (no (i 0)) (yellow (i 2)))"]
+    out += ["(Array N N 0)", "(Array 4 N 0)", "(Array 4 (3) 0)", "(Array 1 (N 3) 2)", "(Array 4 ((1 3)) 4)",
+            "(Array N ((2 N) 3) 0)", "(Array 2 N 1)", "(Array 3 (3) 2)"]
     out += ["(CoerceH %s)" % t for t in ("str", "int", "float", "complex", "list", "tuple", "dict", "function",
                                           "method", "type", "NoneType", "bool", "bytes")]
     out += ["(CastH %s)" % t for t in ("int", "float", "complex", "str", "bytes", "bool", "tuple", "list")]
